@@ -254,8 +254,10 @@ where
         self.radio_kind.set_packet_params(tx_pkt_params).await?;
         self.radio_kind.set_channel(mdltn_params.frequency_in_hz).await?;
         self.radio_kind.set_payload(buffer).await?;
+        // record the mode only once the IRQ routing for it is in place: if this write fails the
+        // driver must not accept a following `tx()` with another operation's IRQ mask programmed
+        self.radio_kind.set_irq_params(Some(RadioMode::Transmit)).await?;
         self.radio_mode = RadioMode::Transmit;
-        self.radio_kind.set_irq_params(Some(self.radio_mode)).await?;
         Ok(())
     }
 
@@ -301,8 +303,10 @@ where
         self.radio_kind.set_modulation_params(mdltn_params).await?;
         self.radio_kind.set_packet_params(rx_pkt_params).await?;
         self.radio_kind.set_channel(mdltn_params.frequency_in_hz).await?;
-        self.radio_mode = listen_mode.into();
-        self.radio_kind.set_irq_params(Some(self.radio_mode)).await?;
+        // as in `prepare_for_tx`: the mode is recorded after its IRQ routing has been programmed
+        let rx_mode: RadioMode = listen_mode.into();
+        self.radio_kind.set_irq_params(Some(rx_mode)).await?;
+        self.radio_mode = rx_mode;
         Ok(())
     }
 
@@ -447,8 +451,11 @@ where
 
         self.radio_kind.set_modulation_params(mdltn_params).await?;
         self.radio_kind.set_channel(mdltn_params.frequency_in_hz).await?;
+        // as in `prepare_for_tx`: the mode is recorded after its IRQ routing has been programmed
+        self.radio_kind
+            .set_irq_params(Some(RadioMode::ChannelActivityDetection))
+            .await?;
         self.radio_mode = RadioMode::ChannelActivityDetection;
-        self.radio_kind.set_irq_params(Some(self.radio_mode)).await?;
         Ok(())
     }
 
@@ -514,8 +521,10 @@ where
             self.radio_mode = RadioMode::Standby;
         }
         self.radio_kind.set_channel(mdltn_params.frequency_in_hz).await?;
+        // record the mode only once the IRQ routing for it is in place: if this write fails the
+        // driver must not accept a following `tx()` with another operation's IRQ mask programmed
+        self.radio_kind.set_irq_params(Some(RadioMode::Transmit)).await?;
         self.radio_mode = RadioMode::Transmit;
-        self.radio_kind.set_irq_params(Some(self.radio_mode)).await?;
         self.radio_kind.set_tx_continuous_wave_mode().await
     }
 
